@@ -127,6 +127,10 @@ Iota(d) == [k \in 1..d |-> k]
 OpCharges(A, chg, qmod) == {ValidQ([k \in 1..Len(qmod) |-> chg[p[1]][k] - chg[p[2]][k]], qmod) : p \in {p2 \in DOMAIN A : A[p2] # {}}}
 
 ------------------------------------------------------------------------------
+\* charge_to_JW_parity: a vector, or not defined, or (after set_common_charges) not claimed by this spec
+C2(v) == [def |-> "yes", v |-> v]
+C2None == [def |-> "none", v |-> <<>>]
+C2Unknown == [def |-> "unknown", v |-> <<>>]
 \* the table of a site
 St(labels, tag) == [labels |-> labels, tag |-> tag]
 Table(cls, par, cons, Mod, states, qnames, qmod, chgraw, ops, jw, c2jw) ==
@@ -156,9 +160,9 @@ SpinHalfTable(cons) ==
         two(A) == MScale(Num(0, 2, 1), A, 2, 4)
         ops == so @@ [Sigmaz |-> two(Sz)] @@ (IF cons # "Sz" THEN [Sigmax |-> two(so.Sx), Sigmay |-> two(so.Sy)] ELSE <<>>)
         states == <<St(<<"up", "0.5">>, 1), St(<<"down", "-0.5">>, -1)>>
-    IN CASE cons = "Sz" -> Table("SpinHalfSite", <<>>, cons, 4, states, <<"2*Sz">>, <<1>>, <<<<1>>, <<-1>>>>, ops, {"JW"}, <<0>>)
-         [] cons = "parity" -> Table("SpinHalfSite", <<>>, cons, 4, states, <<"parity_Sz">>, <<2>>, <<<<1>>, <<0>>>>, ops, {"JW"}, <<0>>)
-         [] OTHER -> Table("SpinHalfSite", <<>>, cons, 4, states, <<>>, <<>>, <<<<>>, <<>>>>, ops, {"JW"}, <<>>)
+    IN CASE cons = "Sz" -> Table("SpinHalfSite", <<>>, cons, 4, states, <<"2*Sz">>, <<1>>, <<<<1>>, <<-1>>>>, ops, {"JW"}, C2(<<0>>))
+         [] cons = "parity" -> Table("SpinHalfSite", <<>>, cons, 4, states, <<"parity_Sz">>, <<2>>, <<<<1>>, <<0>>>>, ops, {"JW"}, C2(<<0>>))
+         [] OTHER -> Table("SpinHalfSite", <<>>, cons, 4, states, <<>>, <<>>, <<<<>>, <<>>>>, ops, {"JW"}, C2(<<>>))
 
 SpinTable(twoS, cons) ==
     LET d == twoS + 1
@@ -167,11 +171,11 @@ SpinTable(twoS, cons) ==
         Sz == MDiag(d, LAMBDA k : Real(2 * (k - 1) - twoS, 2, 4))
         ops == SpinOps(Sp, Sz, d, cons \notin {"Sz", "dipole"})
         states == [k \in 1..d |-> St(IF k = 1 THEN <<"down">> ELSE IF k = d THEN <<"up">> ELSE <<>>, 2 * (k - 1) - twoS)]
-    IN CASE cons = "Sz" -> Table("SpinSite", <<twoS>>, cons, 4, states, <<"2*Sz">>, <<1>>, [k \in 1..d |-> <<2 * (k - 1) - twoS>>], ops, {"JW"}, <<0>>)
+    IN CASE cons = "Sz" -> Table("SpinSite", <<twoS>>, cons, 4, states, <<"2*Sz">>, <<1>>, [k \in 1..d |-> <<2 * (k - 1) - twoS>>], ops, {"JW"}, C2(<<0>>))
          [] cons = "dipole" -> Table("SpinSite", <<twoS>>, cons, 4, states, <<"2*Sz", "dipole">>, <<1, 1>>,
-                                     [k \in 1..d |-> <<2 * (k - 1) - twoS, 0>>], ops, {"JW"}, <<0, 0>>)
-         [] cons = "parity" -> Table("SpinSite", <<twoS>>, cons, 4, states, <<"parity_Sz">>, <<2>>, [k \in 1..d |-> <<(k - 1) % 2>>], ops, {"JW"}, <<0>>)
-         [] OTHER -> Table("SpinSite", <<twoS>>, cons, 4, states, <<>>, <<>>, [k \in 1..d |-> <<>>], ops, {"JW"}, <<>>)
+                                     [k \in 1..d |-> <<2 * (k - 1) - twoS, 0>>], ops, {"JW"}, C2(<<0, 0>>))
+         [] cons = "parity" -> Table("SpinSite", <<twoS>>, cons, 4, states, <<"parity_Sz">>, <<2>>, [k \in 1..d |-> <<(k - 1) % 2>>], ops, {"JW"}, C2(<<0>>))
+         [] OTHER -> Table("SpinSite", <<twoS>>, cons, 4, states, <<>>, <<>>, [k \in 1..d |-> <<>>], ops, {"JW"}, C2(<<>>))
 
 \* ---- fermions ------------------------------------------------------------------------------
 \* filling f = <<p, r>>
@@ -184,9 +188,9 @@ FermionTable(cons, f) ==
         ops == [Id |-> MId(2), JW |-> JW, C |-> C, Cd |-> Cd, N |-> N, dN |-> dN, dNdN |-> MMul(dN, dN, 2, 4)]
         states == <<St(<<"empty">>, 0), St(<<"full">>, 1)>>
         jw == {"C", "Cd", "JW"}
-    IN CASE cons = "N" -> Table("FermionSite", f, cons, 4, states, <<"N">>, <<1>>, <<<<0>>, <<1>>>>, ops, jw, <<1>>)
-         [] cons = "parity" -> Table("FermionSite", f, cons, 4, states, <<"parity_N">>, <<2>>, <<<<0>>, <<1>>>>, ops, jw, <<1>>)
-         [] OTHER -> Table("FermionSite", f, cons, 4, states, <<>>, <<>>, <<<<>>, <<>>>>, ops, jw, "none")
+    IN CASE cons = "N" -> Table("FermionSite", f, cons, 4, states, <<"N">>, <<1>>, <<<<0>>, <<1>>>>, ops, jw, C2(<<1>>))
+         [] cons = "parity" -> Table("FermionSite", f, cons, 4, states, <<"parity_N">>, <<2>>, <<<<0>>, <<1>>>>, ops, jw, C2(<<1>>))
+         [] OTHER -> Table("FermionSite", f, cons, 4, states, <<>>, <<>>, <<<<>>, <<>>>>, ops, jw, C2None)
 
 \* two modes (up before down): states empty(0,0) up(1,0) down(0,1) full(1,1) = index 1 + nu + 2 nd
 NU(k) == (k - 1) % 2
@@ -218,7 +222,7 @@ SHFCharges(consN, consSz, d) ==
               \o (IF consSz = "Sz" THEN <<1>> ELSE IF consSz = "parity" THEN <<4>> ELSE <<>>)
         ch == [k \in 1..d |-> (IF consN \in {"N", "parity"} THEN <<NU(k) + ND(k)>> ELSE <<>>)
                                \o (IF consSz \in {"Sz", "parity"} THEN <<NU(k) - ND(k)>> ELSE <<>>)]
-        c2 == IF consN \in {"N", "parity"} THEN (IF consSz \in {"Sz", "parity"} THEN <<1, 0>> ELSE <<1>>) ELSE "none"
+        c2 == IF consN \in {"N", "parity"} THEN (IF consSz \in {"Sz", "parity"} THEN C2(<<1, 0>>) ELSE C2(<<1>>)) ELSE C2None
     IN [qn |-> qn, qm |-> qm, ch |-> ch, c2 |-> c2]
 SHFJW == {"Cu", "Cdu", "Cd", "Cdd", "JWu", "JWd", "JW"}
 SpinHalfFermionTable(consN, consSz, f) ==
@@ -246,10 +250,10 @@ BosonTable(Nmax, cons, f) ==
                 dNdN |-> MMul(dN, dN, d, 4), P |-> P]
         states == [k \in 1..d |-> St(IF k = 1 THEN <<"vac">> ELSE <<>>, k - 1)]
         par == <<Nmax, f[1], f[2]>>
-    IN CASE cons = "N" -> Table("BosonSite", par, cons, 4, states, <<"N">>, <<1>>, [k \in 1..d |-> <<k - 1>>], ops, {"JW"}, <<0>>)
-         [] cons = "dipole" -> Table("BosonSite", par, cons, 4, states, <<"N", "dipole">>, <<1, 1>>, [k \in 1..d |-> <<k - 1, 0>>], ops, {"JW"}, <<0, 0>>)
-         [] cons = "parity" -> Table("BosonSite", par, cons, 4, states, <<"parity_N">>, <<2>>, [k \in 1..d |-> <<(k - 1) % 2>>], ops, {"JW"}, <<0>>)
-         [] OTHER -> Table("BosonSite", par, cons, 4, states, <<>>, <<>>, [k \in 1..d |-> <<>>], ops, {"JW"}, <<>>)
+    IN CASE cons = "N" -> Table("BosonSite", par, cons, 4, states, <<"N">>, <<1>>, [k \in 1..d |-> <<k - 1>>], ops, {"JW"}, C2(<<0>>))
+         [] cons = "dipole" -> Table("BosonSite", par, cons, 4, states, <<"N", "dipole">>, <<1, 1>>, [k \in 1..d |-> <<k - 1, 0>>], ops, {"JW"}, C2(<<0, 0>>))
+         [] cons = "parity" -> Table("BosonSite", par, cons, 4, states, <<"parity_N">>, <<2>>, [k \in 1..d |-> <<(k - 1) % 2>>], ops, {"JW"}, C2(<<0>>))
+         [] OTHER -> Table("BosonSite", par, cons, 4, states, <<>>, <<>>, [k \in 1..d |-> <<>>], ops, {"JW"}, C2(<<>>))
 
 \* ---- clock ---------------------------------------------------------------------------------
 \* phases are powers of w = exp(2 pi i / q):  Mod = q.   Z = diag(w^n),  X = eye(q, k=1) + eye(q, k=1-q)
@@ -261,8 +265,8 @@ ClockTable(q, cons) ==
         base == [Id |-> MId(q), JW |-> MId(q), X |-> X, Z |-> Z, Xhc |-> Xhc, Zhc |-> Zhc]
         ops == IF cons = "Z" THEN base ELSE base @@ [Xphc |-> MAdd(X, Xhc, q, q), Zphc |-> MAdd(Z, Zhc, q, q)]
         states == [k \in 1..q |-> St(IF k = 1 THEN <<"up">> ELSE IF q % 2 = 0 /\ k - 1 = q \div 2 THEN <<"down">> ELSE <<>>, k - 1)]
-    IN IF cons = "Z" THEN Table("ClockSite", <<q>>, cons, q, states, <<"clock_phase">>, <<q>>, [k \in 1..q |-> <<k - 1>>], ops, {"JW"}, "none")
-       ELSE Table("ClockSite", <<q>>, cons, q, states, <<>>, <<>>, [k \in 1..q |-> <<>>], ops, {"JW"}, "none")
+    IN IF cons = "Z" THEN Table("ClockSite", <<q>>, cons, q, states, <<"clock_phase">>, <<q>>, [k \in 1..q |-> <<k - 1>>], ops, {"JW"}, C2None)
+       ELSE Table("ClockSite", <<q>>, cons, q, states, <<>>, <<>>, [k \in 1..q |-> <<>>], ops, {"JW"}, C2None)
 
 
 ------------------------------------------------------------------------------
@@ -365,7 +369,15 @@ GroupTab(ms, pol) ==
                                                ELSE IF s2 < s /\ nm \in ms[s].jw THEN sp(s2, "JW") ELSE sp(s2, "Id")], ds, ModG)
         ops == UNION {{[nm |-> nm, m |-> s - 1, jw |-> nm \in ms[s].jw, sp |-> one(s, nm)] : nm \in (DOMAIN ms[s].ops) \ {"Id"}} :
                          s \in 1..n}
-    IN [kind |-> "group", pol |-> pol, err |-> err, D |-> D, Mod |-> ModG, ds |-> ds,
+        \* charge_to_JW_parity of the grouped site: inherited only where that is sound -- 'same': all members have the
+        \* *same* vector (a bosonic member sharing the charge of a fermionic one makes the charge useless for JW signs);
+        \* 'independent': concatenation; "unknown": left to the harness' semantic comparison (after set_common_charges)
+        defd == \A s \in 1..n : ms[s].c2jw.def = "yes"
+        c2jw == CASE \E s \in 1..n : ms[s].c2jw.def = "unknown" -> C2Unknown
+                  [] pol = "same" -> IF defd /\ \A s \in 2..n : ms[s].c2jw = ms[1].c2jw THEN ms[1].c2jw ELSE C2None
+                  [] pol = "independent" -> IF defd THEN C2(ConcatAll([s \in 1..n |-> ms[s].c2jw.v])) ELSE C2None
+                  [] OTHER -> C2None
+    IN [kind |-> "group", pol |-> pol, err |-> err, D |-> D, Mod |-> ModG, ds |-> ds, c2jw |-> IF err THEN C2None ELSE c2jw,
         qnames |-> IF err THEN <<>> ELSE qnames, qmod |-> IF err THEN <<>> ELSE qmod,
         chg |-> IF err THEN <<>> ELSE chg,
         ops |-> IF err THEN {} ELSE
@@ -373,9 +385,9 @@ GroupTab(ms, pol) ==
                 \cup {[nm |-> "Id", m |-> -1, jw |-> FALSE, sp |-> KronSeq([s \in 1..n |-> sp(s, "Id")], ds, ModG)],
                       [nm |-> "JW", m |-> -1, jw |-> TRUE, sp |-> KronSeq([s \in 1..n |-> sp(s, "JW")], ds, ModG)]}]
 
-View(T) == [d |-> T.d, Mod |-> T.Mod, qnames |-> T.qnames, qmod |-> T.qmod, chg |-> T.chg, ops |-> T.ops, jw |-> T.jw]
+View(T) == [d |-> T.d, Mod |-> T.Mod, qnames |-> T.qnames, qmod |-> T.qmod, chg |-> T.chg, ops |-> T.ops, jw |-> T.jw, c2jw |-> T.c2jw]
 MemberViews == [s \in 1..Len(members) |-> View(Cat[members[s]])]
-CommonViews(c) == [s \in 1..Len(members) |-> [View(Cat[members[s]]) EXCEPT !.qnames = c.qnames, !.qmod = c.qmod, !.chg = c.tabs[s].chg]]
+CommonViews(c) == [s \in 1..Len(members) |-> [View(Cat[members[s]]) EXCEPT !.qnames = c.qnames, !.qmod = c.qmod, !.chg = c.tabs[s].chg, !.c2jw = C2Unknown]]
 
 ------------------------------------------------------------------------------
 Init == site = NoSite /\ members = <<>> /\ grp = NoGrp /\ last = [op |-> "init"]
@@ -523,6 +535,13 @@ ClockAlgebra == (IsSite /\ site.cls = "ClockSite") =>
 GroupChargeRule == (grp.kind \in {"group", "common+group"} /\ ~grp.err) =>
     \A o \in grp.ops :
         Cardinality({ValidQ([k \in 1..Len(grp.qmod) |-> grp.chg[t[1]][k] - grp.chg[t[2]][k]], grp.qmod) : t \in o.sp}) <= 1
+\* an inherited charge_to_JW_parity reproduces the JW operator of the grouped site:  (-1)^(charges . c2jw) = diag(JW)
+RECURSIVE Dot(_, _, _)
+Dot(a, b, k) == IF k = 0 THEN 0 ELSE a[k] * b[k] + Dot(a, b, k - 1)
+GroupJWParity == (grp.kind \in {"group", "common+group"} /\ ~grp.err /\ grp.c2jw.def = "yes") =>
+    LET jw == (CHOOSE o \in grp.ops : o.nm = "JW" /\ o.m = -1).sp IN
+    \A t \in jw : t[1] = t[2] /\ t[3] = (IF Dot(grp.chg[t[1]], grp.c2jw.v, Len(grp.c2jw.v)) % 2 = 0 THEN One
+                                          ELSE {Mono(Half(grp.Mod), 1, 1, 1)})
 \* the folded JW strings make fermionic operators of different members anticommute
 GroupAnticommute == (grp.kind \in {"group", "common+group"} /\ ~grp.err /\ grp.D <= 8) =>
     \A o1 \in grp.ops, o2 \in grp.ops :
